@@ -68,22 +68,37 @@ def main():
     print(json.dumps({k: v for k, v in meta.items() if not k.endswith("output")}, indent=1))
     if not confirmed:
         print("NOT CONFIRMED - not kept");
-    # run the checks against the change
-    assert sh("git -C /repo status --porcelain")[1].strip() == "", "/repo is dirty"
+    # run the checks against the change: by default on /repo itself (apply, run, revert); with
+    # SEEDEVAL_WORKTREE=1 on a separate worktree of /repo HEAD through VERIF_REPO_DIR, so that a
+    # long background run using /repo is not disturbed
+    target = "/repo"
+    envx = ""
+    if os.environ.get("SEEDEVAL_WORKTREE"):
+        target = "/tmp/seedrepo-%s-%s" % (prop, n)
+        sh("git -C /repo worktree remove --force %s" % target)
+        rc, out = sh("git -C /repo worktree add --detach %s HEAD" % target)
+        assert rc == 0, out
+        os.makedirs("/var/tmp/seedout", exist_ok=True)
+        envx = "VERIF_REPO_DIR=%s VERIF_OUT_DIR=/var/tmp/seedout " % target
+    assert sh("git -C %s status --porcelain" % target)[1].strip() == "", target + " is dirty"
     results = {}
-    rc, out = sh("git -C /repo apply %s" % patch)
+    rc, out = sh("git -C %s apply %s" % (target, patch))
     try:
         for cid in checks:
             t0 = time.time()
-            rc, out = sh("/verif/check %s" % cid + os.environ.get("SEEDEVAL_CHECK_ARGS", ""), timeout=3600)
+            rc, out = sh(envx + "/verif/check %s" % cid + os.environ.get("SEEDEVAL_CHECK_ARGS", ""), timeout=3600)
             classes = re.findall(r"class: (\S.*)", out)
             results[cid] = {"exit": rc, "classes": classes, "wall_s": round(time.time() - t0, 1),
                             "summary": [l for l in out.splitlines() if l.startswith("vdriver: C")][-1:]}
             print(cid, "exit", rc, classes[:4])
     finally:
-        sh("git -C /repo checkout -- .")
-        sh("cd /verif && git status --porcelain replays | grep '^??' | cut -c4- | xargs -r rm -f")
-        sh("cd /verif && git checkout -- evidence replays 2>/dev/null")
+        if target == "/repo":
+            sh("git -C /repo checkout -- .")
+            sh("cd /verif && git status --porcelain replays | grep '^??' | cut -c4- | xargs -r rm -f")
+            sh("cd /verif && git checkout -- evidence replays 2>/dev/null")
+        else:
+            sh("git -C /repo worktree remove --force %s" % target)
+    meta["checks_run_on"] = target if target == "/repo" else "worktree of /repo HEAD (VERIF_REPO_DIR)"
     dst = "/verif/seeded/%s-%s" % (prop, n)
     os.makedirs(dst, exist_ok=True)
     prev = os.path.join(dst, "meta.json")
